@@ -120,6 +120,8 @@ pub struct ExploreReport {
     pub accepted: u64,
     pub validated: u64,
     pub replayed_from_genesis: u64,
+    pub seeds_skipped: u64,
+    pub seeds_total: u64,
     pub per_depth: Vec<(usize, u64, u64)>, // depth, frontier size, new states
     pub outcomes: BTreeMap<String, u64>,
     pub counters: BTreeMap<String, u64>,
@@ -233,17 +235,20 @@ impl Seen {
 }
 
 /// Build the seed nodes: fresh deployment, then the seed's prefix through `step` (oracles on).
-pub fn build_seed<C: Checker>(c: &C, w: &mut World, prefix: &[C::Op], rec: &mut Rec) -> C::Ghost {
+pub fn build_seed<C: Checker>(c: &C, w: &mut World, prefix: &[C::Op], rec: &mut Rec) -> Option<C::Ghost> {
     *w = World::new(&c.cfg());
     let mut g = C::Ghost::default();
     for op in prefix {
         let pre = c.pre(w, &g);
         match c.step(w, &g, &pre, op, rec) {
             Some(g2) => g = g2,
-            None => panic!("MACHINERY: seed prefix operation not accepted in {}: {:?}", c.name(), op),
+            None => {
+                eprintln!("[{}] seed prefix operation refused, seed skipped: {:?}", c.name(), op);
+                return None;
+            }
         }
     }
-    g
+    Some(g)
 }
 
 pub fn explore<C: Checker>(c: &C, depth: usize, caps: &Caps) -> ExploreReport {
@@ -251,6 +256,7 @@ pub fn explore<C: Checker>(c: &C, depth: usize, caps: &Caps) -> ExploreReport {
     let name = c.name();
     let mut rep = ExploreReport { job: name.clone(), depth_bound: depth, exhaustive: true, ..Default::default() };
     let seeds = c.seeds();
+    rep.seeds_total = seeds.len() as u64;
     let seen = Seen::new();
     let mut frontier: Vec<Node<C>> = vec![];
     let mut seed_snaps: Vec<Snapshot> = vec![];
@@ -259,12 +265,23 @@ pub fn explore<C: Checker>(c: &C, depth: usize, caps: &Caps) -> ExploreReport {
     for (i, (sname, prefix)) in seeds.iter().enumerate() {
         let mut rec = Rec::default();
         let node = with_world(&name, &cfgf, |w| {
-            let g = build_seed(c, w, prefix, &mut rec);
+            let g = build_seed(c, w, prefix, &mut rec)?;
             let g2 = g.clone();
             let snap = w.snapshot();
             c.on_new_state(w, &g2, &mut rec);
-            Node::<C> { snap: Some(snap), ghost: g, seed: i, hist: vec![] }
+            Some(Node::<C> { snap: Some(snap), ghost: g, seed: i, hist: vec![] })
         });
+        let Some(node) = node else {
+            // the oracle may already have recorded why; the seed is reported as not explored
+            for v in rec.viols.drain(..) {
+                record_viol(&mut rep, v, sname, &prefix[..0], None::<&C::Op>, 0);
+            }
+            rep.caps_hit.push(format!("seed {sname} could not be built (an operation of its prefix was refused); not explored"));
+            rep.exhaustive = false;
+            rep.seeds_skipped += 1;
+            seed_snaps.push(Snapshot { storage: Default::default(), time_nanos: 0 });
+            continue;
+        };
         seed_snaps.push(node.snap.clone().unwrap());
         for v in rec.viols.drain(..) {
             record_viol(&mut rep, v, sname, &prefix[..0], None::<&C::Op>, 0);
@@ -372,7 +389,7 @@ pub fn explore<C: Checker>(c: &C, depth: usize, caps: &Caps) -> ExploreReport {
         for n in next.iter().step_by(step_by).take(8) {
             let mut rec = Rec::default();
             let ok = with_world(&name, &cfgf, |w| {
-                let mut g = build_seed(c, w, &seeds[n.seed].1, &mut rec);
+                let Some(mut g) = build_seed(c, w, &seeds[n.seed].1, &mut rec) else { return false };
                 for op in &n.hist {
                     let pre = c.pre(w, &g);
                     match c.step(w, &g, &pre, op, &mut rec) {
@@ -443,7 +460,10 @@ pub fn replay<C: Checker>(c: &C, seed: &str, hist: &[C::Op], op: Option<&C::Op>)
     let seeds = c.seeds();
     let prefix = &seeds.iter().find(|s| s.0 == seed).unwrap_or_else(|| panic!("unknown seed {seed}")).1;
     let mut w = World::new(&c.cfg());
-    let mut g = build_seed(c, &mut w, prefix, &mut rec);
+    let Some(mut g) = build_seed(c, &mut w, prefix, &mut rec) else {
+        rec.viol("REPLAY_SEED_REFUSED", "a seed prefix operation was refused".into());
+        return rec;
+    };
     for o in hist {
         let pre = c.pre(&mut w, &g);
         match c.step(&mut w, &g, &pre, o, &mut rec) {
